@@ -241,22 +241,23 @@ func c09Configs(g *rng.R, thorough bool) []func() (*c09Stack, error) {
 			return &c09Stack{st: st, cfg: st.Name + "/mtu=777"}, nil
 		})
 	}
+	// the two connection-oriented transports run in both tiers (one configuration each in the quick tier)
+	add(func() (*c09Stack, error) {
+		st, err := buildQUICMem(stackOpts{n: n, outerMTU: 5000})
+		return &c09Stack{st: st, cfg: "quic(mem)/mtu=5000", quic: true}, err
+	})
+	add(func() (*c09Stack, error) {
+		st, err := buildSSH(stackOpts{n: n})
+		return &c09Stack{st: st, cfg: "ssh"}, err
+	})
 	if thorough {
 		add(func() (*c09Stack, error) {
 			st, err := buildQUICMem(stackOpts{n: n})
 			return &c09Stack{st: st, cfg: "quic(mem)", quic: true}, err
 		})
 		add(func() (*c09Stack, error) {
-			st, err := buildQUICMem(stackOpts{n: n, outerMTU: 5000})
-			return &c09Stack{st: st, cfg: "quic(mem)/mtu=5000", quic: true}, err
-		})
-		add(func() (*c09Stack, error) {
 			st, err := buildQUICUDP(stackOpts{n: n})
 			return &c09Stack{st: st, cfg: "quic(udp)", quic: true}, err
-		})
-		add(func() (*c09Stack, error) {
-			st, err := buildSSH(stackOpts{n: n})
-			return &c09Stack{st: st, cfg: "ssh"}, err
 		})
 		add(func() (*c09Stack, error) {
 			st, err := buildP2PKEUDP(stackOpts{n: n})
